@@ -18,6 +18,7 @@ import (
 	"slices"
 	"sort"
 	"strings"
+	"sync"
 	"testing"
 	"time"
 
@@ -38,6 +39,12 @@ type DialScenario struct {
 	// the next dial on the same transport follows the previous connection's close at once (its closing period is still
 	// running), and every connection is used once more after the closing period of its predecessor has ended
 	Quick bool `json:"quick_redial,omitempty"`
+	// the second and later dials resume the first one's session and send their request as 0-RTT data (DialEarly): packets of
+	// another encryption level travel with the spec-built first flight
+	Early bool `json:"early_redials,omitempty"`
+	// the caller has serialised the spec's transport-parameter extension before dialing (sizing it, building a reference
+	// ClientHello): whatever the extension object caches must not reach the wire of a later dial
+	PreLen bool `json:"pre_serialised,omitempty"`
 }
 
 func (s *DialScenario) KSeed() uint64 { return s.Seed }
@@ -119,7 +126,7 @@ func genDerive(r *KRng, client string) *WDerive {
 		d.SrcCIDLen = r.Pick(-1, 3, 4, 8, 15, 20) // not below Firefox's 3 bytes: shorter IDs collide among the IDs of one connection
 	}
 	if r.P(0.3) {
-		d.DstCIDLen = r.Pick(8, 9, 12, 16, 20)
+		d.DstCIDLen = r.Pick(8, 9, 12, 16, 20, 8, 12, 1, 4, 7)
 	}
 	if r.P(0.25) {
 		d.UDPMin = r.Pick(1200, 1250, 1280)
@@ -179,6 +186,8 @@ func genDial(seed uint64, tier string) KScenario {
 	sc.Fresh = r.P(0.3)
 	sc.EchoSize = r.Pick(1, 1000, 20000, 100000)
 	sc.Quick = sc.Dials > 1 && !sc.Fresh && r.P(0.4)
+	sc.Early = sc.Dials > 1 && !sc.Quick && r.P(0.3)
+	sc.PreLen = r.P(0.2)
 	return sc
 }
 
@@ -193,6 +202,9 @@ type dialCapture struct {
 
 func runDial(t *testing.T, ksc KScenario, res *KResult) {
 	sc := ksc.(*DialScenario)
+	if sc.Early {
+		sc.Cfg.Allow0RTT = true
+	}
 	wBegin(&sc.Cfg)
 	defer wEnd()
 	on := wOraclesEnabled("C02")
@@ -203,8 +215,15 @@ func runDial(t *testing.T, ksc KScenario, res *KResult) {
 		res.Fail("spec could not be built", "%v", err)
 		return
 	}
+	if sc.Early {
+		nodes.CTLS.ClientSessionCache = tls.NewLRUClientSessionCache(4)
+	}
+	if q := wQTPExt(nodes.Spec); sc.PreLen && q != nil {
+		q.Len()
+	}
 	wo := NewWireOracles(w, nodes, res)
 	wo.refusedHello = sc.Cfg.Derive != nil && sc.Cfg.Derive.ISCID != ""
+	wo.muted = sc.Cfg.Derive != nil && sc.Cfg.Derive.DstCIDLen > 0 && sc.Cfg.Derive.DstCIDLen < 8
 	wo.on = on
 	w.StartDriver()
 	defer func() {
@@ -275,33 +294,62 @@ func runDial(t *testing.T, ksc KScenario, res *KResult) {
 		horizon := 40 * time.Second
 		ctx, cancel := context.WithTimeout(context.Background(), horizon)
 		var sconn *quic.Conn
+		var sconnMu sync.Mutex
 		adone := make(chan struct{})
 		go func() {
-			defer close(adone)
-			c, err := nodes.Accept(ctx)
-			if err != nil {
-				return
-			}
-			sconn = c
-			// echo server for bidirectional streams
-			go func() {
-				for {
-					s, err := c.AcceptStream(ctx)
-					if err != nil {
-						return
-					}
-					b, err := io.ReadAll(s)
-					if err != nil {
-						return
-					}
-					s.Write(b)
-					s.Close()
+			var once sync.Once
+			done := func() { once.Do(func() { close(adone) }) }
+			defer done()
+			for {
+				c, err := nodes.Accept(ctx)
+				if err != nil {
+					return
 				}
-			}()
+				// echo server for bidirectional streams
+				go func() {
+					for {
+						s, err := c.AcceptStream(ctx)
+						if err != nil {
+							return
+						}
+						b, err := io.ReadAll(s)
+						if err != nil {
+							return
+						}
+						s.Write(b)
+						s.Close()
+					}
+				}()
+				if nodes.ELn == nil {
+					sconn = c
+					return
+				}
+				// an early listener also hands out connections whose handshake never completes (created from a delayed
+				// copy of an Initial): serve every one, the dial's own is the one that completes the handshake
+				go func() {
+					select {
+					case <-c.HandshakeComplete():
+						sconnMu.Lock()
+						if sconn == nil {
+							sconn = c
+						}
+						sconnMu.Unlock()
+						done()
+					case <-c.Context().Done():
+					case <-ctx.Done():
+					}
+				}()
+			}
 		}()
 		cp := &dialCapture{}
 		caps = append(caps, cp)
-		conn, derr := nodes.Dial(ctx)
+		var conn *quic.Conn
+		var derr error
+		if sc.Early && di > 0 {
+			conn, derr = nodes.DialEarly(ctx)
+		} else {
+			conn, derr = nodes.Dial(ctx)
+		}
 		cp.err = derr
 		if derr != nil {
 			cancel()
@@ -390,6 +438,20 @@ func runDial(t *testing.T, ksc KScenario, res *KResult) {
 				}
 			}
 		}
+		if errors.Is(cp.err, quic.Err0RTTRejected) {
+			res.Probe("0rtt-rejected") // (not a failure of the dial; the request would have to be repeated on the next connection)
+			continue
+		}
+		if d := sc.Cfg.Derive; d != nil && d.DstCIDLen > 0 && d.DstCIDLen < 8 && (cp.err != nil || !cp.echoOK) {
+			// a first destination connection ID of fewer than 8 bytes: servers ignore such Initials (RFC 9000 7.2), C02 does
+			// not claim the dial; C10 and C11 still want the flight as specified
+			res.Probe("short-dcid-dial-ignored")
+			if cp.conn != nil && cp.conn.CH != nil {
+				checkInitialFlight(w, nodes, sc, di, cp, report, res)
+				checkClientHello(w, nodes, sc, di, cp, report, res)
+			}
+			continue
+		}
 		if d := sc.Cfg.Derive; d != nil && d.ISCID != "" && (cp.err != nil || !cp.echoOK) {
 			// an explicit initial_source_connection_id that differs from the header's source ID: C02 does not claim the dial
 			// (the server must refuse it), C11 still wants it on the wire as written
@@ -438,6 +500,10 @@ func runDial(t *testing.T, ksc KScenario, res *KResult) {
 		res.Probe("dial-ok")
 		if di > 0 {
 			res.Probe("redial-ok")
+		}
+		if (cp.conn == nil || cp.conn.CH == nil) && wo.muted {
+			res.Probe("observer-cannot-separate-dials-with-equal-short-dcid")
+			continue
 		}
 		if cp.conn == nil || cp.conn.CH == nil {
 			report("C09", "handshake completed but the observer could not reassemble a ClientHello from the Initial packets", "dial #%d", di)
